@@ -174,7 +174,7 @@ let parse_op (toks : string list) : op =
 let fault_name = function
   | OobRead -> "oob-read" | OobWrite -> "oob-write" | NullDeref -> "null"
   | DivZero -> "div0" | NullString -> "nullstring" | UseAfterFree -> "uaf"
-  | Hang -> "hang" | PopEmpty -> "pop-empty"
+  | Hang -> "hang" | PopEmpty -> "pop-empty" | Abort -> "abort"
 
 let print_obs oc (o : obs) =
   let nums l = String.concat " " (List.map string_of_n l) in
